@@ -93,7 +93,9 @@ fn err_kind(msg: &str) -> String {
     } else if m.contains("not supported for types") || m.contains("not supported") && m.contains("compare") {
         "type".to_owned()
     } else {
-        format!("error:{}", msg.chars().take(160).collect::<String>().replace('\n', " "))
+        let flat = msg.replace('\n', " ");
+        let n = flat.chars().count();
+        format!("error:{}", flat.chars().skip(n.saturating_sub(200)).collect::<String>())
     }
 }
 
@@ -236,7 +238,6 @@ fn replay(universe: &str, out_path: &str, modes: &[String]) -> anyhow::Result<()
             }
         }
         let fns: Vec<Value> = OBS.iter().map(|f| module.get(f).unwrap()).collect();
-        let f_sorted = module.get("o_sorted").unwrap();
         for mode in modes {
             let (left, right): (&Vec<Option<Value>>, &Vec<Option<Value>>) = match mode.as_str() {
                 "ff" => (&fresh, &fresh),
@@ -281,61 +282,107 @@ fn replay(universe: &str, out_path: &str, modes: &[String]) -> anyhow::Result<()
                 }
             }
         }
-        // sorted(): lists of abstract value indices, each written with its first construction path
-        let first_rep: HashMap<usize, usize> = {
-            let mut m = HashMap::new();
-            for (n, r) in reps.iter().enumerate() {
-                m.entry(r.val).or_insert(n);
-            }
-            m
-        };
-        let heap = module.heap();
-        for (sn, lst) in u["sorts"].as_array().unwrap().iter().enumerate() {
-            let idx: Vec<usize> = lst.as_array().unwrap().iter().map(|x| x.as_u64().unwrap() as usize).collect();
-            let vals: Option<Vec<Value>> = idx.iter().map(|i| first_rep.get(i).and_then(|n| fresh[*n])).collect();
-            let Some(vals) = vals else {
-                out.write(&json!({"k": "sort", "n": sn, "res": "error:construct"}))?;
-                continue;
-            };
-            let r = util::catch(|| -> Result<Vec<usize>, String> {
-                let input = heap.alloc(vals.clone());
-                let res = eval.eval_function(f_sorted, &[input], &[]).map_err(|e| err_kind(&format!("{}", e)))?;
-                let l = ListRef::from_value(res).ok_or_else(|| "error:not a list".to_owned())?;
-                let mut used = vec![false; vals.len()];
-                let mut pos = Vec::new();
-                for x in l.content() {
-                    let mut found = None;
-                    for (p, y) in vals.iter().enumerate() {
-                        if used[p] {
-                            continue;
-                        }
-                        // identity: heap values by address, inline ints / bools by their bits
-                        if x.ptr_eq(*y) {
-                            found = Some(p);
-                            break;
-                        }
-                    }
-                    match found {
-                        Some(p) => {
-                            used[p] = true;
-                            pos.push(p + 1);
-                        }
-                        None => return Err("error:not a permutation".to_owned()),
-                    }
-                }
-                if pos.len() != vals.len() {
-                    return Err("error:not a permutation".to_owned());
-                }
-                Ok(pos)
-            });
-            out.write(&match r {
-                Ok(Ok(p)) => json!({"k": "sort", "n": sn, "res": p}),
-                Ok(Err(e)) => json!({"k": "sort", "n": sn, "res": e}),
-                Err(p) => json!({"k": "sort", "n": sn, "res": format!("panic:{}", p.chars().take(200).collect::<String>())}),
-            })?;
-        }
         Ok(())
     })?;
+
+    // sorted(): lists of abstract value indices, each element written with its first construction
+    // path. A panic inside sorted() unwinds through the evaluator and leaves frames on its call
+    // stack, so the lists run in their own module, and a fresh one is started after every panic.
+    let first_src: HashMap<usize, String> = {
+        let mut m = HashMap::new();
+        for r in reps.iter() {
+            m.entry(r.val).or_insert_with(|| r.src.clone());
+        }
+        m
+    };
+    let sorts: Vec<Vec<usize>> = u["sorts"]
+        .as_array()
+        .unwrap()
+        .iter()
+        .map(|l| l.as_array().unwrap().iter().map(|x| x.as_u64().unwrap() as usize).collect())
+        .collect();
+    let mut next = 0usize;
+    while next < sorts.len() {
+        let start = next;
+        Module::with_temp_heap(|module| -> anyhow::Result<()> {
+            let mut eval = Evaluator::new(&module);
+            eval.eval_module(pre_ast.clone(), &globals)
+                .map_err(|e| anyhow::anyhow!("prelude: {}", e))?;
+            let f_sorted = module.get("o_sorted").unwrap();
+            let heap = module.heap();
+            let mut cache: HashMap<usize, Option<Value>> = HashMap::new();
+            while next < sorts.len() {
+                let sn = next;
+                next += 1;
+                let idx = &sorts[sn];
+                let mut vals: Vec<Value> = Vec::new();
+                let mut bad = false;
+                for i in idx {
+                    let v = match cache.get(i) {
+                        Some(v) => *v,
+                        None => {
+                            let v = first_src.get(i).and_then(|src| {
+                                util::catch(|| parse(src).ok().and_then(|ast| eval.eval_module(ast, &globals).ok()))
+                                    .ok()
+                                    .flatten()
+                            });
+                            cache.insert(*i, v);
+                            v
+                        }
+                    };
+                    match v {
+                        Some(v) => vals.push(v),
+                        None => bad = true,
+                    }
+                }
+                if bad {
+                    out.write(&json!({"k": "sort", "n": sn, "res": "error:construct"}))?;
+                    continue;
+                }
+                let r = util::catch(|| -> Result<Vec<usize>, String> {
+                    let input = heap.alloc(vals.clone());
+                    let res = eval.eval_function(f_sorted, &[input], &[]).map_err(|e| err_kind(&format!("{}", e)))?;
+                    let l = ListRef::from_value(res).ok_or_else(|| "error:not a list".to_owned())?;
+                    let mut used = vec![false; vals.len()];
+                    let mut pos = Vec::new();
+                    for x in l.content() {
+                        let mut found = None;
+                        for (p, y) in vals.iter().enumerate() {
+                            // identity: heap values by address, inline ints / bools by their bits
+                            if !used[p] && x.ptr_eq(*y) {
+                                found = Some(p);
+                                break;
+                            }
+                        }
+                        match found {
+                            Some(p) => {
+                                used[p] = true;
+                                pos.push(p + 1);
+                            }
+                            None => return Err("error:not a permutation".to_owned()),
+                        }
+                    }
+                    if pos.len() != vals.len() {
+                        return Err("error:not a permutation".to_owned());
+                    }
+                    Ok(pos)
+                });
+                match r {
+                    Ok(Ok(p)) => out.write(&json!({"k": "sort", "n": sn, "res": p}))?,
+                    Ok(Err(e)) => out.write(&json!({"k": "sort", "n": sn, "res": e}))?,
+                    Err(p) => {
+                        out.write(&json!({"k": "sort", "n": sn,
+                                          "res": format!("panic:{}", p.chars().take(200).collect::<String>())}))?;
+                        break; // abandon this evaluator
+                    }
+                }
+            }
+            Ok(())
+        })?;
+        if next == start {
+            break;
+        }
+    }
     out.finish()
 }
 
